@@ -693,6 +693,48 @@ void groth_mode(Env &c, SplitMix &g, int mode, Stmt &st, const std::string &tag0
 	}
 }
 
+// ---- the shuffle of known content stand-alone (GrothSKC::Prove_* / Verify_* with f'): an honest run, and the honest proof
+// against the statement commitment p - c (element of order 2q: refused since the membership test of c was added, finding of C04)
+//   args.skc.prove.<mode> p q g h le [cg] [pi] r [m] [coins] [peer] [log] [crs] => verdict [sent]
+//   args.skc.verify.<mode> p q g h le [cg] c [f'] [m] [coins] [peer] trunc [log] [crs] => verdict [sent]
+void skc_runs(Env &c, SplitMix &g, int mode, const std::vector<size_t> &pi)
+{
+	size_t n = pi.size(); unsigned l = c.le;
+	ZV m(n), fp(n); Z r, cc, cneg;
+	for (size_t i = 0; i < n; i++) { gen_below(m[i], g, c.A->q); mpz_set_ui(fp[i], 0); }
+	gen_below(r, g, c.A->q);
+	std::vector<mpz_ptr> mv = ptrs(m), fpv = ptrs(fp), mp; for (size_t i = 0; i < n; i++) mp.push_back(mv[pi[i]]);
+	c.gP->com->CommitBy(cc, r, mp); coins.take(); oracle_log();
+	mpz_sub(cneg, c.A->p, cc);
+	Chal ch;
+	if (mode == INTER) for (int i = 0; i < 2; i++) { Z v; gen_bits(v, g, l); if (i == 1 && !mpz_sgn(v)) mpz_set_ui(v, 1); ch.vals.push_back(v); script_bits(ch.script, v, l); ch.lines.push_back(b62(v)); }
+	else if (mode == PC) ch = make_chal(c, g, PC, 2);
+	{ Z alpha; gen_bits(alpha, g, mode == NI ? 2 * l : l); script_bits(ch.script, alpha, mode == NI ? 2 * l : l); }
+	std::string ps = "["; for (size_t i = 0; i < n; i++) { if (i) ps += ","; ps += std::to_string(pi[i]); } ps += "]";
+	c.rb_bits = 0; c.flips_possible = (mode == PC);
+	Side P = run_side(c, [&](std::istream &in, std::ostream &out) {
+		if (mode == INTER) c.gP->skc->Prove_interactive(pi, r, mv, in, out);
+		else if (mode == PC) c.gP->skc->Prove_interactive_publiccoin(pi, r, mv, c.eP.get(), in, out);
+		else c.gP->skc->Prove_noninteractive(pi, r, mv, out);
+		return std::string("1"); }, join_lines(ch.lines), std::vector<unsigned char>());
+	c.flips_possible = true;
+	emit(std::string("args.skc.prove.") + mode_name[mode] + " " + groth_hdr(c) + " " + ps + " " + r.str() + " " + zlist(m) + " " + P.coins + " " + dec_lines(ch.lines) +
+		" " + P.log + " " + c.crs(mode) + " tag:honest => " + P.verdict + " " + dec_lines(P.lines));
+	for (int neg = 0; neg < 2; neg++) {
+		mpz_srcptr cv = neg ? cneg.v : cc.v;
+		c.rb_bits = (mode == NI) ? 2 * l : l; c.flips_possible = (mode == PC);
+		Side V = run_side(c, [&](std::istream &in, std::ostream &out) {
+			bool ok;
+			if (mode == INTER) ok = c.gV->skc->Verify_interactive(cv, fpv, mv, in, out);
+			else if (mode == PC) ok = c.gV->skc->Verify_interactive_publiccoin(cv, fpv, mv, c.eV.get(), in, out);
+			else ok = c.gV->skc->Verify_noninteractive(cv, fpv, mv, in);
+			return b2s(ok); }, join_lines(P.lines), ch.script);
+		c.rb_bits = 0; c.flips_possible = true;
+		emit(std::string("args.skc.verify.") + mode_name[mode] + " " + groth_hdr(c) + " " + zs(cv) + " " + zlist(fp) + " " + zlist(m) + " " + V.coins + " " + dec_lines(P.lines) +
+			" 0 " + V.log + " " + c.crs(mode) + " tag:" + (neg ? "mut:c:negelem" : "honest") + " => " + V.verdict + " " + dec_lines(V.lines));
+	}
+}
+
 void groth_case(Env &c, SplitMix &g, size_t n, uint64_t cidx, bool thorough)
 {
 	make_groth(c, n);
@@ -705,6 +747,7 @@ void groth_case(Env &c, SplitMix &g, size_t n, uint64_t cidx, bool thorough)
 	size_t nmut = thorough ? 40 : (n >= 32 ? 2 : n >= 16 ? 3 : 10);
 	for (int mode = 0; mode < 3; mode++) groth_mode(c, g, mode, st, "honest", false, nmut, thorough);
 	if (n <= 9 || thorough) wrapper_checks_fwd(c, g, true, st, s, s2, ss);
+	if (n <= 9 || thorough) for (int mode = 0; mode < 3; mode++) skc_runs(c, g, mode, st.pi);
 	// every permutation of a small stack (n <= 3), non-interactive
 	if (n <= 3) { std::vector<size_t> p2(n); for (size_t i = 0; i < n; i++) p2[i] = i;
 		do { if (p2 == pi) continue; Stmt t; build_stmt(c, g, tm, p2, t, s, s2, ss, false, true); groth_mode(c, g, (int)(cidx % 3), t, "honest", false, 0, false); } while (std::next_permutation(p2.begin(), p2.end())); }
